@@ -389,6 +389,20 @@ def argReadHead (start limit : Nat) : Nat → Outcome Nat
     | .panic s => .panic s
     | .ok h => if h < limit then cadd64 "arg_recovery: read_head += 4" h Consts.arg_pointer_width else .ok h
 
+/-- processor.rs:1125 `SystemTime::UNIX_EPOCH + Duration::from_secs(time_date_stamp as u64)`:
+    `SystemTime + Duration` is `checked_add(..).expect("overflow when adding duration to instant")`
+    on a signed 64-bit count of seconds; the result in seconds after the epoch -/
+def dumpTime (stamp : Nat) : Outcome Nat :=
+  if 0 + stamp ≤ 9223372036854775807 then .ok stamp else .panic "overflow when adding duration to instant"
+
+/-- processor.rs:245/255 the `u64` counters of the stat reporter after `n` increments from 0 -/
+def statCounter : Nat → Outcome Nat
+  | 0 => .ok 0
+  | n + 1 =>
+    match statCounter n with
+    | .panic s => .panic s
+    | .ok c => cadd64 "stats counter += 1" c 1
+
 /-- the frame bound the walk obeys (C05 `walk_bound`), evaluated on counts -/
 def boundOk (frames bytes : Nat) : Bool := decide (frames ≤ bytes + 2)
 
